@@ -73,17 +73,18 @@ def prune(n: Node, strict: bool = False) -> list:
                 n.parent.remove_child(n)
             Node.delete_node_instance(n.id)
             return pruned
-        except ChildNotAllowedError as ex:
-            r = rule.get_rule(n.name)
-            children = n.children.copy()
-            for child in children:
-                if not r.is_allowed_child(child.name):
-                    logger.debug(f"Pruning: {child.name}")
-                    pruned.append((child, str(ex)))
-                    n.remove_child(child)
-                    Node.delete_node_instance(child.id)
         except MetapypeRuleError as ex:
             logger.debug(ex)
+        # Children the rule does not allow are pruned whichever error was raised first
+        r = rule.get_rule(n.name)
+        children = n.children.copy()
+        for child in children:
+            if not r.is_allowed_child(child.name):
+                logger.debug(f"Pruning: {child.name}")
+                msg = f"Child '{child.name}' not allowed in parent '{n.name}'"
+                pruned.append((child, msg))
+                n.remove_child(child)
+                Node.delete_node_instance(child.id)
         children = n.children.copy()
         for child in children:
             pruned += prune(child, strict)
